@@ -94,6 +94,7 @@ type Result struct {
 }
 
 var execMu sync.Mutex
+var warm sync.Once
 
 // Execute runs one execution of sc following prefix, then defaults.
 func Execute(t *testing.T, sc *Scenario, prefix []Choice) *Result {
@@ -109,6 +110,7 @@ func execute(t *testing.T, sc *Scenario, prefix []Choice, halt bool) *Result {
 	execMu.Lock()
 	defer execMu.Unlock()
 	metrics.UseNilMetrics = true
+	warm.Do(sarama.VerifWarmup)
 	if os.Getenv("VERIF_LOG") != "" {
 		sarama.Logger = log.New(os.Stdout, "[sarama] ", 0)
 	}
